@@ -17,7 +17,7 @@ RULE = ('Abstract trees (typed generator over random schemas, small-scope enumer
         'text are judged by an independent recogniser (accept / syntax error). Non-trivial = accepted text with '
         '>= 1 operator or >= 2 events whose AST was compared; distinct = distinct shape signature '
         '(identifiers and literal values erased).')
-RULE_ADDED = ' Since the seeding rounds: time bounds must equal the float quotient or the correctly rounded exact quotient (no tolerance); constant predicates; strings with tabs/no-break spaces; FF/CR blanks.'
+RULE_ADDED = ' Since the seeding rounds: time bounds must equal the float quotient or the correctly rounded exact quotient (no tolerance); constant predicates; strings with tabs/no-break spaces; FF/CR blanks; the module-level convenience functions parse_* (12 % of the compared trees, all five in one process).'
 ASSUMPTIONS = [
     'the documented grammar is my transcription (DESIGN.md Appendix A.1) of the four .lark files and docs/lang.md',
     'names equal to a keyword are not judged; well-formed but ill-typed texts only need to avoid a syntax error',
@@ -149,6 +149,21 @@ def judge_positive(H, level, tokens_fn, comparer, sig, nontrivial, abstract, shr
         if hplapi.exc_class(o2) != 'ok' or monitors.snapshot(o2[1]) != s0:
             ctx.violation('grammar-copy-divergence', {'level': level, 'text': texts[0],
                                                      'embedded': 'ok', 'lark_files': hplapi.exc_class(o2)}, feats)
+    # the module-level convenience functions are entry points too (all five share one process here, called in
+    # whatever order the workload produces)
+    if rng.random() < 0.12:
+        from hpl import parser as hp
+        conv = {'specification': hp.parse_specification, 'property': hp.parse_property, 'predicate': hp.parse_predicate,
+                'condition': hp.parse_condition, 'expression': hp.parse_expresion}[level]
+        o3 = hplapi.outcome(conv, texts[0])
+        ctx.count('convenience_function_compared')
+        d3 = []
+        if hplapi.exc_class(o3) == 'ok':
+            comparer(o3[1], d3)
+        if hplapi.exc_class(o3) != 'ok' or d3 or monitors.snapshot(o3[1]) != s0:
+            ctx.violation('tree-mismatch', {'level': level, 'text': texts[0], 'entry': 'hpl.parser.' + conv.__name__,
+                                            'outcome': hplapi.exc_class(o3), 'diffs': d3[:6]},
+                          feats | {'api:convenience-function'})
     return True
 
 
